@@ -15,7 +15,9 @@ def fixture_program():
         import json
 
         p = facts_path("blst", "dev", repo=_FIX, crate="posctl")
-        with open(p) as fh:
+        import gzip
+
+        with (gzip.open(p, "rt") if p.endswith(".gz") else open(p)) as fh:
             _prog = Program(json.load(fh))
     return _prog
 
